@@ -191,6 +191,8 @@ example : Squeeth.Once e2eEnd.sq :=
     simp only [e2eWorld, Squeeth.c01Start, Squeeth.get?_cons, Squeeth.get?_nil] at hp
     split_ifs at hp
     cases hp; rfl)) _
+-- the script's accept/refuse flags are what the market models decide in the worlds the operations are issued in
+example : coherent e2eSetup (run e2eCfg [] e2eScript).trace e2eWorld = true := by decide +kernel
 -- the three account rows (USD)
 example : (valuedRows NumCtx.exact (marketsValuation e2eSetup) (run e2eCfg [] e2eScript).trace e2eWorld).map (fun r => (r.1, r.2.isSome)) =
     [(0, true), (60, true), (120, true)] := by decide +kernel
